@@ -188,7 +188,7 @@ package files
 //@     return NormalizeAbsoluteFilePath(filepath.Join(tree.Destination, ufStr("pathRel", tree.Source, path)))
 //@ }
 //
-//@ inline func addTree$1(path string, d fs.DirEntry, err error) (result error) captures (all map[string]*Content, tree *Content, mtime time.Time, umask os.FileMode)
+//@ callback func addTree$1(path string, d fs.DirEntry, err error) (result error) captures (all map[string]*Content, tree *Content, mtime time.Time, umask os.FileMode)
 //@   ensures [C01] tree-file-mode: implies(result == nil && !d.IsDir() && d.Type() == 0 && (old(tree.FileInfo) == nil || old(tree.FileInfo.Mode) == 0) && path != "" && fsExists(path) && !mtime.IsZero(),
 //@       mapHas(all, treeKey(tree, path)) && all[treeKey(tree, path)].FileInfo.Mode == fsMode(path)&^umask)
 //@   ensures [C01] tree-declared-mode-verbatim: implies(result == nil && !d.IsDir() && d.Type()&os.ModeSymlink == 0 && old(tree.FileInfo) != nil && old(tree.FileInfo.Mode) != 0,
